@@ -61,7 +61,7 @@ KeyOf(u, pos, s) ==
              IF J = {} THEN <<"unknown">> ELSE <<"child", i, CHOOSE j \in J : TRUE>>
 
 ModelAgrees(line) ==
-   LET u == line.c.u  pos == line.c.pos IN
+   LET u == line.c.u  pos == IF line.c.pos = "op2" THEN "op" ELSE line.c.pos IN      \* two operations carrying the use: one use for the walk
    IF line.load = "error" THEN LoadFails(u, pos)
    ELSE IF line.load # "ok" THEN TRUE
    ELSE /\ ~LoadFails(u, pos)
